@@ -10,7 +10,7 @@ from sa.model import contains, enclosing
 from sa.variants import Variant, replace_once, sub_first, sub_once
 
 from .c07 import check_cache_invalidation
-from .common import call_names
+from .common import call_names, enclosing_facts, is_none_fact
 
 ID = "C19"
 EXPLANATION = (
@@ -105,8 +105,12 @@ def run(ctx) -> None:
     # explicit flag passed in the explicit branch
     for n in voc:
         c = [c for c in bcfg.calls_at(n) if "validate_output_conflicts" in call_names(db, c, bg)][0]
-        gi = enclosing(c, (ast.If,))
-        in_explicit = gi is not None and any(contains(s, c) for s in gi.body) and "_explicit_edges is not None" in src(gi.test)
+        # the branch (either polarity) in which `<x>._explicit_edges` is known not to be None
+        in_explicit = False
+        for atom, pol in enclosing_facts(c):
+            e = is_none_fact(atom, not pol)
+            if e is not None and src(e).endswith("_explicit_edges"):
+                in_explicit = True
         kw = {k.arg: k.value for k in c.keywords}
         flag = isinstance(kw.get("explicit_edges"), ast.Constant) and kw["explicit_edges"].value is True
         ok = in_explicit == flag
